@@ -16,7 +16,12 @@
 
 package pemx
 
-import "encoding/pem"
+import (
+	"encoding/pem"
+	"errors"
+)
+
+var ErrNoPEMData = errors.New("no PEM data found")
 
 type PEMBlockCallback func(idx int, blockType string, headers map[string]string, content []byte) error
 
@@ -28,6 +33,15 @@ func ReadPEM(pemBytes []byte, callback PEMBlockCallback) error {
 
 	for {
 		block, next = pem.Decode(next)
+		if block == nil {
+			if idx == 0 {
+				return ErrNoPEMData
+			}
+
+			// what follows the last entry is no PEM data
+			break
+		}
+
 		if err := callback(idx, block.Type, block.Headers, block.Bytes); err != nil {
 			return err
 		}
